@@ -9,7 +9,7 @@ ID = "C11"
 LEVEL = "proof"
 DESIGN_REF = "DESIGN.md §9 C11, §12.C11"
 COQ_TARGETS = ["Properties/C11", "Pins/C11"]
-THEOREMS = [("PdfV.Properties.C11", n) for n in ["C11_member", "C11_direct_twin", "C11_member_slice", "C11_header", "C11_slice_no_panic", "C11_nonvacuous"]]
+THEOREMS = [("PdfV.Properties.C11", n) for n in ["C11_member", "C11_member_any_filter", "C11_direct_twin", "C11_stream_length", "C11_member_slice", "C11_header", "C11_slice_no_panic", "C11_nonvacuous"]]
 ANCHORS = ["lexer/", "parser/"]
 MODES = ["objstm", "parse_indirect"]
 TRUSTED_BASE = ["coqc 8.16.1 kernel", "gen/extract_syn.py", "Extraction + ExtrOcamlBasic + driver", "pdfh harness",
@@ -138,6 +138,7 @@ def make_file(rng, tier, vals=None, ghost=False):
     xd = {"Type": Name("XRef"), "Size": xnum + (3 if ghost else 1), "W": [1, 4, 2], "Index": index, "Root": Ref(1), "Length": len(rows)}
     out += b"%d 0 obj\n" % xnum + ser(xd) + b"\nstream\n" + bytes(rows) + b"\nendstream\nendobj\n"
     out += b"startxref\n%d\n%%%%EOF\n" % xoff
+    make_file.raw = data
     return bytes(out), vals, direct_nums, comp_nums, payload, first, filt, trailing
 
 
@@ -152,8 +153,9 @@ def generate(rng, tier):
             tags = ["kind:" + type(v).__name__, "pos:" + pos, "filter:%s" % filt, "trail:%r" % trailing,
                     "members-abutting:%s" % ("yes" if build_objstm.abuts else "no")]
             yield Case("resolve_one", [b"s", data, str(dn).encode()], expect=exp, model=False, tags=tags + ["direct"])
-            yield Case("objstm", [b"s", data, str(cn).encode()], mfields=[str(first).encode(), str(n).encode(), str(idx).encode(), payload],
-                       expect=exp, tags=tags + ["compressed"])
+            # hex / a85: the model receives the stream's encoded content and decodes it with its own (proved) decoder
+            mf = [str(first).encode(), str(n).encode(), str(idx).encode()] + ([make_file.raw, filt.encode()] if filt in ("hex", "a85") else [payload])
+            yield Case("objstm", [b"s", data, str(cn).encode()], mfields=mf, expect=exp, tags=tags + ["compressed"])
     # nesting at and around the supported depth: the limit must be the same for both storage forms
     def nest(d, rng):
         v = rng.choice([7, Name("x"), b"s", None])
